@@ -120,6 +120,9 @@ type declSpec struct {
 	// (a key starting with "G:" is shared by all the applications of the process)
 	// (as a user who reuses one variable for several defaults would)
 	DefShare string `json:"defshare"`
+	// DestShare: declarations of one case naming the same key are bound to the very same destination: one *bool for
+	// the ...Ptr forms of kind bool (implies ptr), one flag.Value object for kind custom
+	DestShare string `json:"destshare"`
 	// Conv: declare through the positional convenience API (cmd.BoolOpt(name, value, desc), ...); only
 	// honoured when the declaration has no EnvVar, HideValue or SetByUser, which that API cannot express
 	Conv bool `json:"conv"`
@@ -440,6 +443,19 @@ func shareDef[T any](key string, def []T, local map[string]interface{}) []T {
 	return def
 }
 
+// boolDest: a fresh *bool, or the one registered under the declaration's destshare key
+func boolDest(d *declSpec, shared map[string]interface{}) *bool {
+	if d.DestShare == "" || shared == nil {
+		return new(bool)
+	}
+	if p, ok := shared["dest:"+d.DestShare].(*bool); ok {
+		return p
+	}
+	p := new(bool)
+	shared["dest:"+d.DestShare] = p
+	return p
+}
+
 func declare(cmd *cli.Cmd, d *declSpec, path string, sharedDefs map[string]interface{}) *varRec {
 	name, desc, env := string(d.Name), string(d.Desc), string(d.Env)
 	isOpt := false
@@ -465,13 +481,13 @@ func declare(cmd *cli.Cmd, d *declSpec, path string, sharedDefs map[string]inter
 		if conv {
 			var ptr *bool
 			switch {
-			case isOpt && d.Ptr:
-				ptr = new(bool)
+			case isOpt && (d.Ptr || d.DestShare != ""):
+				ptr = boolDest(d, sharedDefs)
 				cmd.BoolOptPtr(ptr, name, def, desc)
 			case isOpt:
 				ptr = cmd.BoolOpt(name, def, desc)
-			case d.Ptr:
-				ptr = new(bool)
+			case d.Ptr || d.DestShare != "":
+				ptr = boolDest(d, sharedDefs)
 				cmd.BoolArgPtr(ptr, name, def, desc)
 			default:
 				ptr = cmd.BoolArg(name, def, desc)
@@ -486,10 +502,9 @@ func declare(cmd *cli.Cmd, d *declSpec, path string, sharedDefs map[string]inter
 			p = cli.BoolArg{Name: name, Desc: desc, EnvVar: env, Value: def, HideValue: d.Hide, SetByUser: sbu}
 		}
 		var ptr *bool
-		if d.Ptr {
-			var v bool
-			ptr = &v
-			cmd.BoolPtr(&v, p)
+		if d.Ptr || d.DestShare != "" {
+			ptr = boolDest(d, sharedDefs)
+			cmd.BoolPtr(ptr, p)
 		} else {
 			ptr = cmd.Bool(p)
 		}
@@ -743,6 +758,18 @@ func declare(cmd *cli.Cmd, d *declSpec, path string, sharedDefs map[string]inter
 
 	case "custom":
 		val, c := newCustom(d.Custom)
+		if d.DestShare != "" && sharedDefs != nil {
+			// one flag.Value object handed to several declarations
+			type customDest struct {
+				val flag.Value
+				c   *core
+			}
+			if prev, ok := sharedDefs["dest:"+d.DestShare].(customDest); ok {
+				val, c = prev.val, prev.c
+			} else {
+				sharedDefs["dest:"+d.DestShare] = customDest{val, c}
+			}
+		}
 		rec.cv = c
 		rec.read = c.logCopy
 		if conv {
